@@ -76,7 +76,8 @@ func blockVariants(w *racWorld, bd blockData, rng *rand.Rand) []proofVariant {
 //   ==> every implementation's roots after applying the block == specForest(Apply(A, dels, adds)).Roots
 func TestRAC_C05(t *testing.T) {
 	res := newRacResult("C05")
-	cfgs := []mapCfg{{true, 63}, {true, 0}, {false, 63}, {false, 3}}
+	cfgs := []mapCfg{{Full: true, TotalRows: 63}, {Full: true, TotalRows: 0}, {Full: false, TotalRows: 63}, {Full: false, TotalRows: 3},
+		{Full: false, TotalRows: 63, NoRemember: true}, {Full: false, TotalRows: 0, NoRemember: true}}
 	if res.thorough() {
 		cfgs = racMapCfgs(true)
 	}
@@ -148,7 +149,23 @@ func TestRAC_C05(t *testing.T) {
 			p = safely(func() { e = w.pol.Modify(bd.leaves, v.hashes, v.proof) })
 			chk("Pollard.Modify.rac.applied", "pollard", w.pol.GetRoots(), w.pol.GetNumLeaves(), e, p)
 			for i, m := range w.maps {
-				p = safely(func() { e = m.Modify(bd.leaves, v.hashes, v.proof) })
+				if !w.cfgs[i].Full {
+					// the light-forest flow: the deletions are first verified with remember (which ingests
+					// this very encoding of the proof), then applied
+					pv := safely(func() { e = m.Verify(v.hashes, v.proof, true) })
+					res.eval("MapPollard.Verify.rac.accepts-variant")
+					if pv != "" || e != nil {
+						res.fail("MapPollard.Verify.rac.accepts-variant", map[string]interface{}{"history": h.String(), "variant": v.name, "impl": w.cfgs[i].String()}, fmt.Sprintf("panic=%q err=%v", pv, e), "accepted like Verify did")
+					}
+				}
+				lv := bd.leaves
+				if w.cfgs[i].NoRemember {
+					lv = make([]Leaf, len(bd.leaves))
+					for j, l := range bd.leaves {
+						lv[j] = Leaf{Hash: l.Hash}
+					}
+				}
+				p = safely(func() { e = m.Modify(lv, v.hashes, v.proof) })
 				chk("MapPollard.Modify.rac.applied", w.cfgs[i].String(), m.GetRoots(), m.GetNumLeaves(), e, p)
 			}
 			res.eval("C17.preserves.block")
